@@ -161,7 +161,7 @@ let mut services: Vec<(usize, usize, BoxedServerService)> = Vec::new();
 
 
 // the same service-creation loop on the path without an actix System (it runs inside the worker thread's closure)
-//@extract file=actix-server/src/worker.rs item="impl ServerWorker / fn start" async_block=1 block_sig="async fn start_block_create(factories: &Vec<BoxedFactory>) -> io::Result<Vec<(usize, usize, BoxedServerService)>>" ret=r props=C01,C07 name=worker::start_block_create
+//@extract file=actix-server/src/worker.rs item="impl ServerWorker / fn start" async_block=1 block_sig="async fn start_block_create(factories: &Vec<BoxedFactory>, idx: usize) -> io::Result<Vec<(usize, usize, BoxedServerService)>>" ret=r props=C01,C07 name=worker::start_block_create
 //@replace pattern="let mut services = Vec::new();" rule=R9s
 let mut services: Vec<(usize, usize, BoxedServerService)> = Vec::new();
 //@spec
